@@ -103,10 +103,22 @@ func (s *Session) btreeIterate(fr *Frame, fn *ssa.Function, args []Val, st *Stat
 	s.specAssume(se, st, "forall x "+it+" :: {bthas[T][x]} bthas[T][x] && btkey(x) "+cmp+" btkey(P) ==> 0 <= itrank[x] && itrank[x] < itn")
 	s.specAssume(se, st, "forall j, k :: {itseq[j], itseq[k]} 0 <= j && j < k && k < itn ==> btkey("+cast("itseq[j]")+") "+ord+" btkey("+cast("itseq[k]")+")")
 
+	// the invariant belongs to the function under proof: `at NAME K invariant` for a call in its own body,
+	// `at NAME * invariant` for a call inside an inlined callee (evaluated over the variables of the function under proof)
+	tf := fr
 	site := fr.curSite
+	if !fr.top {
+		tf = s.topFrame
+		site = name + "#*"
+	}
 	var invs []Clause
-	if fr.top && fr.contract != nil && site != "" {
-		invs = fr.contract.Ats[site+"!inv"]
+	if tf != nil && tf.contract != nil && site != "" {
+		invs = tf.contract.Ats[site+"!inv"]
+	}
+	outer := fr
+	fr = tf
+	if fr == nil {
+		fr = outer
 	}
 	evalInv := func(cl Clause, state *State, k T, goal bool) T {
 		saved := fr.env
@@ -169,7 +181,7 @@ func (s *Session) btreeIterate(fr *Frame, fn *ssa.Function, args []Val, st *Stat
 	real := s.scanReal
 	s.scanReal, s.scanRoots, s.scanBlocks = savedReal, savedRoots, savedBlocks
 	if all {
-		s.note("callback of %s in %s has unknown effects: heap havocked", name, fr.fn.String())
+		s.note("callback of %s in %s has unknown effects: heap havocked", name, outer.fn.String())
 		s.havocAll(st)
 	} else {
 		names := make([]string, 0, len(mods))
@@ -221,7 +233,7 @@ func (s *Session) btreeIterate(fr *Frame, fn *ssa.Function, args []Val, st *Stat
 	body := head.clone()
 	body.Reach = s.define("visit", And(head.Reach, Lt(k, n)))
 	cur := s.makeInterface(body, scalar(itemT, Select(seq, k)), itemT, types.NewInterfaceType(nil, nil))
-	r := s.staticCall(fr, clo.Clo.Fn, clo.Clo.Bindings, []Val{cur}, body)
+	r := s.staticCall(outer, clo.Clo.Fn, clo.Clo.Bindings, []Val{cur}, body)
 	cont := r.T0()
 	stopCond := s.define("stop", And(body.Reach, Not(cont)))
 	contCond := s.define("cont", And(body.Reach, cont))
